@@ -1,78 +1,8 @@
 import MorfuseModel.Archive.Tables
+import MorfuseModel.Archive.Honest
 /-! Round trip of `Listener::Archive`'s tables: the data-directed reader of `Tables.lean`, run on what the
 writer produced, returns the tables (phase 1: archive indices in the pointer slots; `fixTables` = `Close`). -/
 namespace Morfuse.Archive
-
-theorem encItems_append (t : List Lbl) (a b : List Item) :
-    encItems t (a ++ b) = ((encItems (encItems t a).1 b).1, (encItems t a).2 ++ (encItems (encItems t a).1 b).2) := by
-  induction a generalizing t with
-  | nil => simp [encItems]
-  | cons i is ih => simp [encItems, ih, List.append_assoc]
-
-theorem newFix_append (T : List Lbl) (a b : List Item) : newFix T (a ++ b) = newFix T b ++ newFix T a := by
-  induction a with
-  | nil => simp [newFix]
-  | cons i is ih => simp [newFix, ih, List.append_assoc]
-
-/-- `r`, run where the stream holds the encoding of the calls `c`, returns `a`, consumes exactly that encoding,
-    registers nothing and queues the fix-ups of `c` -/
-def Honest (T : List Lbl) {α : Type} (r : RS → Res α) (c : List Item) (a : α) : Prop :=
-  ∀ (t : List Lbl) (tail : Bytes) (pos : Nat) (R : List Lbl) (F : List Nat),
-    (encItems t c).1 <+: T → R.length = T.length →
-    r ⟨(encItems t c).2 ++ tail, pos, true, R, F⟩ =
-      .ok a ⟨tail, pos + (encItems t c).2.length, true, R, newFix T c ++ F⟩
-
-theorem Honest.bind {T : List Lbl} {α β : Type} {r1 : RS → Res α} {c1 : List Item} {a1 : α}
-    {r2 : α → RS → Res β} {c2 : List Item} {a2 : β}
-    (h1 : Honest T r1 c1 a1) (h2 : Honest T (r2 a1) c2 a2) :
-    Honest T (fun s => (r1 s).bind r2) (c1 ++ c2) a2 := by
-  intro t tail pos R F hp hR
-  rw [encItems_append] at hp ⊢
-  simp only at hp ⊢
-  have e1 := h1 t ((encItems (encItems t c1).1 c2).2 ++ tail) pos R F ((encItems_prefix c2 _).trans hp) hR
-  rw [List.append_assoc, e1]
-  simp only [Res.bind]
-  rw [h2 (encItems t c1).1 tail _ R _ hp hR]
-  simp [newFix_append, Nat.add_assoc]
-
-theorem Honest.congr {T : List Lbl} {α : Type} {r r' : RS → Res α} {c : List Item} {a : α}
-    (h : ∀ s, r s = r' s) (h' : Honest T r' c a) : Honest T r c a := by
-  intro t tail pos R F hp hR
-  rw [h]; exact h' t tail pos R F hp hR
-
-theorem Honest.calls_eq {T : List Lbl} {α : Type} {r : RS → Res α} {c c' : List Item} {a : α}
-    (h : c = c') (h' : Honest T r c' a) : Honest T r c a := h ▸ h'
-
-theorem Honest.pure {T : List Lbl} {α : Type} (a : α) : Honest T (fun s => Res.ok a s) [] a := by
-  intro t tail pos R F _ _
-  simp [encItems, newFix]
-
-theorem Honest.data {T : List Lbl} (cfg : Cfg) (p : Prim) (v : Nat) (old : Option Bytes) :
-    Honest T (readData cfg p.tag p.width old) [.prim p v] (le p.width v) := by
-  intro t tail pos R F _ _
-  simp only [encItems, encItem, encPrim, List.append_nil, newFix, newFixItem, List.nil_append]
-  rw [readData_ok cfg p.tag (Prim.tag_lt _) (le p.width v) tail old pos R F p.width (le_length _ _)]
-  simp [Nat.add_assoc]
-
-theorem Honest.str {T : List Lbl} (cfg : Cfg) (bs : Bytes) (hl : bs.length < 2 ^ 64)
-    (ha : strAlloc bs.length < cfg.allocLimit) : Honest T (readStr cfg []) [.str bs] bs := by
-  intro t tail pos R F _ _
-  simp only [encItems, encItem, List.append_nil, newFix, newFixItem, List.nil_append]
-  rw [readStr_ok cfg bs [] tail pos R F hl ha (fun _ => rfl)]
-
-theorem Honest.ptr {T : List Lbl} (hT : T.length < nullIdx) (cfg : Cfg) (o : Lbl) :
-    Honest T (readPtr cfg true) [.ptr true o] (if o = 0 then 0 else idxIn T o) := by
-  intro t tail pos R F hp hR
-  by_cases ho : o = 0
-  · subst ho
-    simp only [encItems, encItem, ↓reduceIte, List.append_nil, newFix, newFixItem, List.nil_append]
-    rw [readPtr_null]
-    simp
-  · simp only [encItems, encItem, ho, ↓reduceIte] at hp
-    obtain ⟨e1, e2, e3, _⟩ := idx_bounds hp
-    simp only [encItems, encItem, ho, ↓reduceIte, List.append_nil, newFix, newFixItem, List.nil_append, e1]
-    rw [readPtr_idx cfg true (idxIn T o) tail pos R F e2 (by omega) (by omega)]
-    simp
 
 /-! ### the pieces -/
 
@@ -107,7 +37,7 @@ theorem readPtrs_honest {T : List Lbl} (hT : T.length < nullIdx) (cfg : Cfg) : (
         Res.ok ((if o = 0 then 0 else idxIn T o) :: is) s) (ls.map (.ptr true ·) ++ [])
         ((if o = 0 then 0 else idxIn T o) :: ls.map fun o => if o = 0 then 0 else idxIn T o) :=
       Honest.bind (readPtrs_honest hT cfg ls) (Honest.pure _)
-    have h := Honest.bind (T := T) (Honest.ptr hT cfg o)
+    have h := Honest.bind (T := T) (Honest.ptr hT cfg true o)
       (r2 := fun i s => (readPtrs cfg ls.length s).bind fun is s => Res.ok (i :: is) s) h3
     simpa [readPtrs] using h
 
@@ -119,8 +49,12 @@ theorem readConList_honest {T : List Lbl} (hT : T.length < nullIdx) (cfg : Cfg) 
   have hu : unle (le (Prim.u32).width ls.length) = ls.length := unle_le_of_lt (by simpa [Prim.width] using hw.1)
   have hna : ¬ (ls.length * safePtrSize ≥ cfg.allocLimit) := by have := hw.2; omega
   have h := Honest.bind (T := T) (Honest.data cfg .u32 ls.length none)
-    (r2 := fun nb s => if unle nb * safePtrSize ≥ cfg.allocLimit then Res.err Err.alloc s else readPtrs cfg (unle nb) s)
-    (Honest.congr (fun s => by simp only [hu, hna, ↓reduceIte]) (readPtrs_honest hT cfg ls))
+    (r2 := fun nb s => if !s.good || !lenGe s.rest (unle nb) then Res.err Err.streamFail s
+      else if unle nb * safePtrSize ≥ cfg.allocLimit then Res.err Err.alloc s else readPtrs cfg (unle nb) s)
+    (Honest.congrOn (fun t tail pos R F => by
+      have hlg : lenGe ((encItems t (ls.map (.ptr true ·))).2 ++ tail) ls.length = true := by
+        rw [lenGe_iff]; simp [ptrs_enc_length]; omega
+      simp only [hu, hna, hlg, Bool.not_true, Bool.or_self, Bool.false_eq_true, ↓reduceIte]) (readPtrs_honest hT cfg ls))
   exact h
 
 def WFEntry (cfg : Cfg) (e : ConEntry) : Prop := WFKey cfg e.1 ∧ WFList cfg e.2
@@ -155,6 +89,11 @@ structure WFSet (cfg : Cfg) (s : ConSet) : Prop where
   th : s.threshold < 2 ^ 32
   tli : s.tableLengthIndex < 2 ^ 16
   cnt : s.entries.length < 2 ^ 32
+  /-- `count` and `tableLength` do not exceed what the stream holds behind them (always true of `count`: every entry
+      takes bytes; a table sparser than that is loaded into a smaller one and its `tableLength` does not round-trip) -/
+  bounds : ∀ t : List Lbl,
+    s.entries.length ≤ (encItems t (.prim .u16 s.tableLengthIndex :: (entriesCalls s.entries ++ []))).2.length ∧
+    s.tableLength ≤ (encItems t (.prim .u16 s.tableLengthIndex :: (entriesCalls s.entries ++ []))).2.length
   entries : ∀ e ∈ s.entries, WFEntry cfg e
 
 theorem rawSet_entries (T : List Lbl) (s : ConSet) : (rawSet T s).entries = s.entries.map (rawEntry T) := rfl
@@ -180,28 +119,63 @@ theorem readSet_honest {T : List Lbl} (hT : T.length < nullIdx) (cfg : Cfg) (s :
         Res.ok (RawSet.mk (s.tableLength) (s.threshold) (unle tli) es) s')
     (c2 := entriesCalls s.entries ++ []) (a2 := rawSet T s)
     (Honest.congr (fun s' => by simp only [hna, ↓reduceIte, u4]) h5)
+  have htl0 : decide (s.tableLength = 0) = false := by simpa using hw.tl.1
   have h3 := Honest.bind (T := T) (Honest.data cfg .u32 s.entries.length none)
-    (r2 := fun cnt s' => (readData cfg (Prim.u16).tag (Prim.u16).width (some (zeros 2)) s').bind fun tli s' =>
-      if s.tableLength ≠ 1 ∧ s.tableLength * 8 ≥ cfg.allocLimit then Res.err Err.alloc s' else
-      (readEntries cfg s.tableLength (unle cnt) s').bind fun es s' =>
-        Res.ok (RawSet.mk (s.tableLength) (s.threshold) (unle tli) es) s')
-    (Honest.congr (fun s' => by simp only [u3]) h4)
+    (r2 := fun cnt s' =>
+      if !s'.good then Res.err Err.streamFail s'
+      else if s.tableLength = 0 || !lenGe s'.rest (unle cnt) then Res.err Err.streamFail s'
+      else
+        (readData cfg (Prim.u16).tag (Prim.u16).width (some (zeros 2)) s').bind fun tli s'' =>
+          if (if !lenGe s'.rest s.tableLength then (if unle cnt > 1 then unle cnt else 1) else s.tableLength) ≠ 1 ∧
+              (if !lenGe s'.rest s.tableLength then (if unle cnt > 1 then unle cnt else 1) else s.tableLength) * 8 ≥ cfg.allocLimit
+          then Res.err Err.alloc s'' else
+          (readEntries cfg (if !lenGe s'.rest s.tableLength then (if unle cnt > 1 then unle cnt else 1) else s.tableLength)
+              (unle cnt) s'').bind fun es s'' =>
+            Res.ok (RawSet.mk (if !lenGe s'.rest s.tableLength then (if unle cnt > 1 then unle cnt else 1) else s.tableLength)
+              (if !lenGe s'.rest s.tableLength then
+                (if !lenGe s'.rest s.tableLength then (if unle cnt > 1 then unle cnt else 1) else s.tableLength) else s.threshold)
+              (unle tli) es) s'')
+    (Honest.congrOn (fun t tail pos R F => by
+      obtain ⟨b1, b2⟩ := hw.bounds t
+      have g1 : lenGe ((encItems t ([Item.prim Prim.u16 s.tableLengthIndex] ++ (entriesCalls s.entries ++ []))).2 ++ tail)
+          s.entries.length = true := by rw [lenGe_iff]; simp only [List.length_append, List.singleton_append]; omega
+      have g2 : lenGe ((encItems t ([Item.prim Prim.u16 s.tableLengthIndex] ++ (entriesCalls s.entries ++ []))).2 ++ tail)
+          s.tableLength = true := by rw [lenGe_iff]; simp only [List.length_append, List.singleton_append]; omega
+      simp only [u3, g1, g2, htl0, Bool.not_true, Bool.or_self, Bool.false_eq_true, ↓reduceIte]) h4)
   have h2 := Honest.bind (T := T) (Honest.data cfg .u32 s.threshold none)
-    (r2 := fun th s' => (readData cfg (Prim.u32).tag (Prim.u32).width none s').bind fun cnt s' =>
-      (readData cfg (Prim.u16).tag (Prim.u16).width (some (zeros 2)) s').bind fun tli s' =>
-      if s.tableLength ≠ 1 ∧ s.tableLength * 8 ≥ cfg.allocLimit then Res.err Err.alloc s' else
-      (readEntries cfg s.tableLength (unle cnt) s').bind fun es s' =>
-        Res.ok (RawSet.mk (s.tableLength) (unle th) (unle tli) es) s')
+    (r2 := fun th s0 => (readData cfg (Prim.u32).tag (Prim.u32).width none s0).bind fun cnt s' =>
+      if !s'.good then Res.err Err.streamFail s'
+      else if s.tableLength = 0 || !lenGe s'.rest (unle cnt) then Res.err Err.streamFail s'
+      else
+        (readData cfg (Prim.u16).tag (Prim.u16).width (some (zeros 2)) s').bind fun tli s'' =>
+          if (if !lenGe s'.rest s.tableLength then (if unle cnt > 1 then unle cnt else 1) else s.tableLength) ≠ 1 ∧
+              (if !lenGe s'.rest s.tableLength then (if unle cnt > 1 then unle cnt else 1) else s.tableLength) * 8 ≥ cfg.allocLimit
+          then Res.err Err.alloc s'' else
+          (readEntries cfg (if !lenGe s'.rest s.tableLength then (if unle cnt > 1 then unle cnt else 1) else s.tableLength)
+              (unle cnt) s'').bind fun es s'' =>
+            Res.ok (RawSet.mk (if !lenGe s'.rest s.tableLength then (if unle cnt > 1 then unle cnt else 1) else s.tableLength)
+              (if !lenGe s'.rest s.tableLength then
+                (if !lenGe s'.rest s.tableLength then (if unle cnt > 1 then unle cnt else 1) else s.tableLength) else unle th)
+              (unle tli) es) s'')
     (Honest.congr (fun s' => by simp only [u2]) h3)
   have h1 := Honest.bind (T := T) (Honest.data cfg .u32 s.tableLength none)
-    (r2 := fun tl s' => (readData cfg (Prim.u32).tag (Prim.u32).width none s').bind fun th s' =>
-      (readData cfg (Prim.u32).tag (Prim.u32).width none s').bind fun cnt s' =>
-      (readData cfg (Prim.u16).tag (Prim.u16).width (some (zeros 2)) s').bind fun tli s' =>
-      if unle tl ≠ 1 ∧ unle tl * 8 ≥ cfg.allocLimit then Res.err Err.alloc s' else
-      (readEntries cfg (unle tl) (unle cnt) s').bind fun es s' =>
-        Res.ok (RawSet.mk (unle tl) (unle th) (unle tli) es) s')
+    (r2 := fun tl s00 => (readData cfg (Prim.u32).tag (Prim.u32).width none s00).bind fun th s0 =>
+      (readData cfg (Prim.u32).tag (Prim.u32).width none s0).bind fun cnt s' =>
+      if !s'.good then Res.err Err.streamFail s'
+      else if unle tl = 0 || !lenGe s'.rest (unle cnt) then Res.err Err.streamFail s'
+      else
+        (readData cfg (Prim.u16).tag (Prim.u16).width (some (zeros 2)) s').bind fun tli s'' =>
+          if (if !lenGe s'.rest (unle tl) then (if unle cnt > 1 then unle cnt else 1) else unle tl) ≠ 1 ∧
+              (if !lenGe s'.rest (unle tl) then (if unle cnt > 1 then unle cnt else 1) else unle tl) * 8 ≥ cfg.allocLimit
+          then Res.err Err.alloc s'' else
+          (readEntries cfg (if !lenGe s'.rest (unle tl) then (if unle cnt > 1 then unle cnt else 1) else unle tl)
+              (unle cnt) s'').bind fun es s'' =>
+            Res.ok (RawSet.mk (if !lenGe s'.rest (unle tl) then (if unle cnt > 1 then unle cnt else 1) else unle tl)
+              (if !lenGe s'.rest (unle tl) then
+                (if !lenGe s'.rest (unle tl) then (if unle cnt > 1 then unle cnt else 1) else unle tl) else unle th)
+              (unle tli) es) s'')
     (Honest.congr (fun s' => by simp only [u1]) h2)
-  exact Honest.calls_eq (by simp [setCalls]) h1
+  exact Honest.calls_eq (by simp [setCalls]) (Honest.congr (fun s' => by simp only [readSet]; rfl) h1)
 
 def WFOptSet (cfg : Cfg) : Option ConSet → Prop
   | none => True
